@@ -5,6 +5,7 @@ CONSTANTS
   Conns <- MCConns
   Configs <- MCConfigs
   AllowDialFail = TRUE
+  AllowTLS = @@TLS@@
   AllowEnv = @@ENV@@
   CanonFresh = TRUE
   Nil = Nil
